@@ -214,7 +214,16 @@ class Sc:
                         sig = "human-line-became-ai"
                     else:
                         sig = "ai-line-credited-to-other-session"
+                    # the contiguous block of lines that are not base lines around this one: who wrote them?
+                    base = getattr(self, "base_texts", set())
+                    lo = hi = i - 1
+                    while lo - 1 >= 0 and norm(ls[lo - 1]) not in base:
+                        lo -= 1
+                    while hi + 1 < len(ls) and norm(ls[hi + 1]) not in base:
+                        hi += 1
+                    authors = {str(self.ghost.get(norm(ls[k]), "?")) for k in range(lo, hi + 1)}
                     self.failures.append((sig, {"where": where, "path": p, "line": i, "text": t, "want": g, "have": have,
+                                                "block_authors": sorted(authors), "mixed_block": len(authors) > 1,
                                                 "log": self.log[-10:]}))
 
     def is_human_tweak_of(self, text, have_hash):
@@ -237,6 +246,7 @@ class Sc:
             self.write(p, ls)
             self.mfiles.add(p)
             self.mrec("human", path=p, s=0, ys=[self.lid(l) for l in ls])
+        self.base_texts = {norm(l) for p in self.files for l in self.lines(p)}
         self.commit("base")
 
     def feature_commits(self, n, files=None, where="middle", disjoint=False):
@@ -630,6 +640,20 @@ def family(tname, sc):
     return tname
 
 
+REPLAY_FAMILIES = ("rebase[upstream-touches-tracked-file]", "rebase-conflict-continue", "rebase-interactive",
+                   "cherry-pick[upstream-touches-tracked-file]", "cherry-pick-range[upstream-touches-tracked-file]")
+
+
+def full_sig(fam, sig, d):
+    """family:kind — and, for the content-replay families, whether the line sits in a block of added lines
+    written by more than one author (the recorded finding is about exactly those blocks)"""
+    if sig == "human-tweak-of-ai-line-still-ai":
+        return sig
+    if fam.split("+tail-")[0] in REPLAY_FAMILIES and d.get("mixed_block"):
+        return f"{fam}:{sig}:in-block-of-several-authors"
+    return f"{fam}:{sig}"
+
+
 def run_one(args, _attempt=0):
     seed, tname = args
     fn = dict(TEMPLATES)[tname]
@@ -646,8 +670,7 @@ def run_one(args, _attempt=0):
                     if len(sc.failures) > n_first:
                         fam = f"{fam}+tail-{t}"
             md = {"ok": sc.model_ok, "mops": sc.mops, "obs": sc.obs, "files": sorted(sc.mfiles)}
-            return tname, tag, [(sig if sig == "human-tweak-of-ai-line-still-ai" else f"{fam}:{sig}", d)
-                                for sig, d in sc.failures], sc.log, md
+            return tname, tag, [(full_sig(fam, sig, d), d) for sig, d in sc.failures], sc.log, md
     except Exception as ex:
         if _attempt < 2:
             return run_one(args, _attempt + 1)     # transient environment trouble (busy machine): retry
